@@ -160,7 +160,7 @@ impl<'a> Visitor for AllocJobs<'a> {
     fn visit<S: Spec>(&mut self, e: Entry<S>) {
         let coded = e.coded != crate::spec::Coded::No;
         if e.vector_backed && !coded && e.has_heap {
-            let (prefix, batch) = if self.thorough { (2, 3) } else { (2, 2) };
+            let (prefix, batch) = if self.thorough { (2, 4) } else { (2, 2) };
             for owned in [false, true] {
                 let e2 = e.clone();
                 let mut b = BfsCfg::new(prefix + 1);
@@ -320,7 +320,7 @@ pub fn jobs(prop: &str, tier: &str) -> Vec<Job> {
             stacks(&mut out, StackOracle::Sequence, if thorough { 6 } else { 4 }, devs, 3);
         }
         "C09" => {
-            let mut v = CloneJobs { out: &mut out, depth: if thorough { 7 } else { 5 }, max_clones: if thorough { 2 } else { 1 } };
+            let mut v = CloneJobs { out: &mut out, depth: if thorough { 8 } else { 5 }, max_clones: if thorough { 2 } else { 1 } };
             crate::catalogue::visit_all(&mut v);
             stacks(&mut out, StackOracle::Sequence, if thorough { 5 } else { 3 }, &[], 3);
             // clone_from between two coded Huffman containers with different code tables
@@ -524,14 +524,14 @@ pub fn jobs(prop: &str, tier: &str) -> Vec<Job> {
             c.o_owned_laws = true;
             c.clone_replace = true;
             c.n_forms = usize::MAX;
-            life(&mut out, c, if thorough { 3 } else { 2 }, &[], &|_| true, &|_, _| {});
+            life(&mut out, c, if thorough { 4 } else { 2 }, &[], &|_| true, &|_, _| {});
         }
         "C15" => {
             let mut c = LifeCfg::new("C15");
             c.o_order = true;
             c.n_values = 5;
             c.n_forms = 1;
-            life(&mut out, c, if thorough { 4 } else { 3 }, &[], &|i| i.ordered, &|_, _| {});
+            life(&mut out, c, if thorough { 5 } else { 3 }, &[], &|i| i.ordered, &|_, _| {});
             use crate::m_huff::*;
             // fib12 / fib18: codes longer than one / two bytes for the compared symbols
             let mut profiles = vec![fib_profile(3), fib_profile(6), uniform_profile(3, 1), fib_profile(12)];
@@ -558,7 +558,7 @@ pub fn jobs(prop: &str, tier: &str) -> Vec<Job> {
             c.clear = true;
             c.n_forms = 2;
             c.n_values = 3;
-            life(&mut out, c, if thorough { 5 } else { 4 }, if thorough { &[(32, 2, 1)] } else { &[(16, 1, 1)] }, &|i| i.serde && !i.zst, &|_, _| {});
+            life(&mut out, c, if thorough { 6 } else { 4 }, if thorough { &[(32, 2, 1)] } else { &[(16, 1, 1)] }, &|i| i.serde && !i.zst, &|_, _| {});
             let d = if thorough { 5 } else { 3 };
             idx_jobs::<Stride>(&mut out, IdxOracle::Serde, d + 1, &[], &[]);
             idx_jobs::<IndexList<Vec<u32>, Vec<u64>>>(&mut out, IdxOracle::Serde, d, &[], &[]);
@@ -570,7 +570,7 @@ pub fn jobs(prop: &str, tier: &str) -> Vec<Job> {
             let mut c = LifeCfg::new("C20");
             c.twin = Twin::CanonForm;
             c.clear = true;
-            life(&mut out, c, if thorough { 4 } else { 3 }, &[], &|i| i.n_forms > 1, &|_, _| {});
+            life(&mut out, c, if thorough { 5 } else { 3 }, &[], &|i| i.n_forms > 1, &|_, _| {});
         }
         _ => {}
     }
